@@ -9,6 +9,11 @@
 //!        → name=<scalars> comment=<scalars> raw=<hex> sname=<scalars> sraw=<hex>
 //!        (hand-built one-entry stored archive; central header through `ZipArchive`, local header
 //!         through `read_zipfile_from_stream`)
+//!   text.arch cflags=<u16> lflags=<u16> cname=<hex> lname=<hex> comment=<hex> cextra=<hex> lextra=<hex> zip=<hex>
+//!        → same fields as text.name (the streaming part may be `err unsupported`: local encryption / descriptor bit)
+//!        (`zip` is the archive built from the other fields: local and central header with their own flags, names and
+//!         extra fields - Info-ZIP Unicode Path 0x7075 / Unicode Comment 0x6375 records among them; the implementation
+//!         and the model read `zip`, the oracle re-builds it from the fields)
 //!   text.write chars=<scalars>                  → stored=<hex> len=<u16> flag=<0|1> back=<scalars> raw=<hex> | err invalid
 //!        (`ZipWriter::start_file`; fields taken from the produced central header; read back with `ZipArchive`)
 use super::cp437_table::CP437_REF;
@@ -75,40 +80,48 @@ fn le32(v: &mut Vec<u8>, x: u32) {
 }
 
 fn build_archive(flags: u16, name: &[u8], comment: &[u8]) -> Vec<u8> {
-    let mut v = Vec::with_capacity(128 + 2 * name.len() + comment.len());
+    build_archive2(flags, flags, name, name, comment, &[], &[])
+}
+
+/// Local and central header with their OWN flags, names and extra fields (they may disagree: the central header
+/// is authoritative for `ZipArchive`, the local one is all the streaming reader sees).
+fn build_archive2(cflags: u16, lflags: u16, cname: &[u8], lname: &[u8], comment: &[u8], cextra: &[u8], lextra: &[u8]) -> Vec<u8> {
+    let mut v = Vec::with_capacity(128 + cname.len() + lname.len() + comment.len() + cextra.len() + lextra.len());
     // local file header
     le32(&mut v, 0x04034b50);
     le16(&mut v, 20); // version needed
-    le16(&mut v, flags);
+    le16(&mut v, lflags);
     le16(&mut v, 0); // stored
     le16(&mut v, 0); // time
     le16(&mut v, 0x21); // date 1980-01-01
     le32(&mut v, 0); // crc32 of the empty string
     le32(&mut v, 0);
     le32(&mut v, 0);
-    le16(&mut v, name.len() as u16);
-    le16(&mut v, 0);
-    v.extend_from_slice(name);
+    le16(&mut v, lname.len() as u16);
+    le16(&mut v, lextra.len() as u16);
+    v.extend_from_slice(lname);
+    v.extend_from_slice(lextra);
     let cd = v.len() as u32;
     // central directory header
     le32(&mut v, 0x02014b50);
     le16(&mut v, 20); // made by: DOS, 2.0
     le16(&mut v, 20);
-    le16(&mut v, flags);
+    le16(&mut v, cflags);
     le16(&mut v, 0);
     le16(&mut v, 0);
     le16(&mut v, 0x21);
     le32(&mut v, 0);
     le32(&mut v, 0);
     le32(&mut v, 0);
-    le16(&mut v, name.len() as u16);
-    le16(&mut v, 0);
+    le16(&mut v, cname.len() as u16);
+    le16(&mut v, cextra.len() as u16);
     le16(&mut v, comment.len() as u16);
     le16(&mut v, 0);
     le16(&mut v, 0);
     le32(&mut v, 0);
     le32(&mut v, 0); // local header offset
-    v.extend_from_slice(name);
+    v.extend_from_slice(cname);
+    v.extend_from_slice(cextra);
     v.extend_from_slice(comment);
     let cd_size = v.len() as u32 - cd;
     // end of central directory
@@ -125,18 +138,35 @@ fn build_archive(flags: u16, name: &[u8], comment: &[u8]) -> Vec<u8> {
 
 fn run_name(flag: bool, name: &[u8], comment: &[u8]) -> String {
     let bytes = build_archive(if flag { 1 << 11 } else { 0 }, name, comment);
+    run_arch(&bytes, false)
+}
+
+/// Infozip Unicode Path (0x7075) / Unicode Comment (0x6375) record: version, CRC-32 of the header field it
+/// belongs to, UTF-8 text.
+fn unicode_record(id: u16, version: u8, crc: u32, text: &[u8]) -> Vec<u8> {
+    let mut v = vec![];
+    le16(&mut v, id);
+    le16(&mut v, (5 + text.len()) as u16);
+    v.push(version);
+    le32(&mut v, crc);
+    v.extend_from_slice(text);
+    v
+}
+
+fn run_arch(bytes: &[u8], raw: bool) -> String {
     let central = {
-        let mut ar = match zip::ZipArchive::new(Cursor::new(&bytes[..])) {
+        let mut ar = match zip::ZipArchive::new(Cursor::new(bytes)) {
             Ok(a) => a,
             Err(e) => return zerr_class(&e),
         };
-        let f = match ar.by_index(0) {
+        // (an entry whose central header has the encryption bit is looked at through by_index_raw)
+        let f = match if raw { ar.by_index_raw(0) } else { ar.by_index(0) } {
             Ok(f) => f,
             Err(e) => return zerr_class(&e),
         };
         format!("ok name={} comment={} raw={}", str_scalars(f.name()), str_scalars(f.comment()), hex(f.name_raw()))
     };
-    let mut rd = &bytes[..];
+    let mut rd = bytes;
     let stream = match zip::read::read_zipfile_from_stream(&mut rd) {
         Ok(Some(f)) => format!("sname={} sraw={}", str_scalars(f.name()), hex(f.name_raw())),
         Ok(None) => "err nofile".to_string(),
@@ -396,7 +426,13 @@ impl Stream for Text {
                   A0.., F4 90.., F5+, truncated tails, lone continuation bytes, range-edge second bytes, mutated \
                   valid sequences, valid scalars of every length) + 64 KiB strings; text.cp437: random strings incl. \
                   all-ASCII (fast path) and 64 KiB; text.name: hand-built one-entry archives with such names and \
-                  comments under both flags, up to 65535 bytes; text.write: ASCII / mixed / boundary scalar strings \
+                  comments under both flags, up to 65535 bytes; text.arch: the same reader paths on archives whose local and central \
+                  header have their OWN flag words (14 fixed words incl. 0xF800, 0x0806, all-ones-but-bit-11, descriptor and \
+                  encryption bits; random words), names (mismatch: central is authoritative for ZipArchive, local for the \
+                  streaming reader) and extra fields carrying Info-ZIP Unicode Path 0x7075 / Unicode Comment 0x6375 records \
+                  (valid: version 1 + CRC-32 of the raw header field + a different UTF-8 text; stale CRC; other versions) in \
+                  central, local or both, alone or behind a 0x5455 record - name and comment must be decoded by the flag \
+                  alone; text.write: ASCII / mixed / boundary scalar strings \
                   through ZipWriter, encoded length up to 65535 bytes, and 65536+ bytes (must be rejected). distinct = distinct op lines; non-trivial = \
                   response is not an error"
             .into();
@@ -493,6 +529,72 @@ impl Stream for Text {
             g.push("name.example", format!("text.name flag={flag} name=43757261876f comment=cccdcdb9"));
             g.push("name.example", format!("text.name flag={flag} name=c3a9e282ac2e747874 comment=f09f9880"));
         }
+        // 5b. other flag bits, local/central disagreement, Info-ZIP Unicode Path / Comment records
+        let arch_line = |cflags: u16, lflags: u16, cname: &[u8], lname: &[u8], comment: &[u8], cextra: &[u8], lextra: &[u8]| {
+            format!("text.arch cflags={cflags} lflags={lflags} cname={} lname={} comment={} cextra={} lextra={} zip={}",
+                hex(cname), hex(lname), hex(comment), hex(cextra), hex(lextra),
+                hex(&build_archive2(cflags, lflags, cname, lname, comment, cextra, lextra)))
+        };
+        let flagset: [u16; 14] = [0, 0x0800, 0xF800, 0x0806, 0x0006, 0x1000, 0x2800, 0x4000, 0x8800, 0xF7F6, 0xFFF6, 0x0808, 0x0001, 0x0809];
+        let names: [&[u8]; 5] = [b"plain.txt", &[0x43, 0x75, 0x72, 0x61, 0x87, 0x6f], &[0xc3, 0xa9, 0xe2, 0x82, 0xac], &[0xff, 0x80, 0x41], b""];
+        // (a) every flag word of the set on both sides x every name, identical headers, no extra
+        for &fl in &flagset { for nm in &names {
+            g.push("arch.flags", arch_line(fl, fl, nm, nm, &[0xcc, 0xcd], &[], &[]));
+        }}
+        // (b) flags disagree (every ordered pair of four words), names disagree
+        for &cf in &[0u16, 0x0800, 0xF800, 0x0006] { for &lf in &[0u16, 0x0800, 0xF800, 0x0006] {
+            g.push("arch.mismatch", arch_line(cf, lf, names[1], names[2], names[2], &[], &[]));
+            g.push("arch.mismatch", arch_line(cf, lf, names[2], names[1], names[1], &[], &[]));
+        }}
+        // (c) valid Unicode Path / Comment records (version 1, CRC-32 of the header's raw name / comment, another
+        //     UTF-8 text) in central, local, both; also stale CRC, version 2, empty text, together with other records
+        let uni: &[u8] = "\u{442}\u{435}\u{441}\u{442}-\u{1F600}.txt".as_bytes();
+        let ts: [u8; 9] = [0x55, 0x54, 5, 0, 1, 0, 0, 0, 0];
+        for &fl in &[0u16, 0x0800, 0xF800, 0x0806] { for nm in &names { for variant in 0..6u8 {
+            let comment: &[u8] = &[0x87, 0x41];
+            let (ver, crc_n, crc_c, text): (u8, u32, u32, &[u8]) = match variant {
+                0 | 3 | 4 | 5 => (1, crc32fast::hash(nm), crc32fast::hash(comment), uni),
+                1 => (1, crc32fast::hash(nm) ^ 1, crc32fast::hash(comment) ^ 1, uni),
+                _ => (2, crc32fast::hash(nm), crc32fast::hash(comment), b""),
+            };
+            let mut rec = unicode_record(0x7075, ver, crc_n, text);
+            if variant != 4 { rec.extend(unicode_record(0x6375, ver, crc_c, text)); }
+            if variant == 5 { let mut t = ts.to_vec(); t.extend(rec); rec = t; }
+            let (ce, le): (&[u8], &[u8]) = match variant { 3 => (&rec, &[]), 4 => (&[], &rec), _ => (&rec, &rec) };
+            g.push("arch.unicodepath", arch_line(fl, fl, nm, nm, comment, ce, le));
+        }}}
+        // (d) random: flags, names, comments, mismatch, records
+        let n_arch = if thorough { 40_000 } else { 2_500 };
+        for _ in 0..n_arch {
+            let rf = |r: &mut Rng| -> u16 { match r.below(4) { 0 => *r.pick(&flagset), 1 => (r.below(65536) as u16) & !9, 2 => if r.chance(1, 2) { 0x0800 } else { 0 }, _ => r.below(65536) as u16 } };
+            let rn = |r: &mut Rng| -> Vec<u8> { match r.below(4) {
+                0 => (0..r.below(12)).map(|_| r.range(0x20, 0x7e) as u8).collect::<Vec<u8>>(),
+                1 => { let n = r.below(12) as usize; r.bytes(n) }
+                _ => edge_bytes(r, 3),
+            } };
+            let cflags = rf(&mut r);
+            let lflags = if r.chance(2, 3) { cflags } else { rf(&mut r) };
+            let cname = rn(&mut r);
+            let lname = if r.chance(2, 3) { cname.clone() } else { rn(&mut r) };
+            let comment = if r.chance(1, 3) { vec![] } else { rn(&mut r) };
+            let mk_extra = |r: &mut Rng, name: &[u8], comment: &[u8]| -> Vec<u8> {
+                let mut e = vec![];
+                if r.chance(1, 4) { e.extend_from_slice(&ts); }
+                if r.chance(3, 4) {
+                    let text = rn(r);
+                    let crc = if r.chance(4, 5) { crc32fast::hash(name) } else { r.next() as u32 };
+                    e.extend(unicode_record(0x7075, if r.chance(9, 10) { 1 } else { r.below(4) as u8 }, crc, &text));
+                }
+                if r.chance(1, 2) {
+                    let text = rn(r);
+                    e.extend(unicode_record(0x6375, 1, crc32fast::hash(comment), &text));
+                }
+                e
+            };
+            let cextra = if r.chance(1, 5) { vec![] } else { mk_extra(&mut r, &cname, &comment) };
+            let lextra = if r.chance(1, 3) { cextra.clone() } else if r.chance(1, 2) { vec![] } else { mk_extra(&mut r, &lname, &comment) };
+            g.push("arch.random", arch_line(cflags, lflags, &cname, &lname, &comment, &cextra, &lextra));
+        }
         // 6. writer
         let n_write = if thorough { 60_000 } else { 4_000 };
         for _ in 0..n_write {
@@ -553,6 +655,11 @@ impl Stream for Text {
                 };
                 catch(move || run_name(flag, &name, &comment)).unwrap_or_else(|_| "panic".into())
             }
+            "text.arch" => {
+                let zip = match get_hex(&a, "zip") { Some(z) => z, None => return "bad-op".into() };
+                let raw = get_u64(&a, "cflags").unwrap_or(0) & 1 == 1;
+                catch(move || run_arch(&zip, raw)).unwrap_or_else(|_| "panic".into())
+            }
             "text.write" => {
                 let cs = match a.get("chars").and_then(|s| parse_scalars(s)).and_then(|v| chars_to_string(&v)) {
                     Some(s) => s,
@@ -594,6 +701,15 @@ impl Stream for Text {
                 if resp != "err invalid" {
                     fail(format!("a {n}-byte name must be rejected with InvalidArchive, got `{}`", short(resp)));
                 }
+                return f;
+            }
+        }
+        if op == "text.arch" {
+            // only archives the generator built are judged (a shrunk or hand-edited line whose `zip` is not the
+            // archive of the listed fields says nothing about the property)
+            let gh = |k: &str| get_hex(&a, k).unwrap_or_default();
+            let g16 = |k: &str| get_u64(&a, k).unwrap_or(0) as u16;
+            if build_archive2(g16("cflags"), g16("lflags"), &gh("cname"), &gh("lname"), &gh("comment"), &gh("cextra"), &gh("lextra")) != gh("zip") {
                 return f;
             }
         }
@@ -655,6 +771,34 @@ impl Stream for Text {
                 }
                 if field("comment") != dec(&comment) {
                     fail(format!("comment not decoded by the flagged encoding (flag={flag}): got `{}`", short(&field("comment"))));
+                }
+            }
+            "text.arch" => {
+                let g16 = |k: &str| get_u64(&a, k).unwrap_or(0) as u16;
+                let gh = |k: &str| get_hex(&a, k).unwrap_or_default();
+                let (cflags, lflags) = (g16("cflags"), g16("lflags"));
+                let (cname, lname, comment) = (gh("cname"), gh("lname"), gh("comment"));
+                let dec = |fl: u16, b: &[u8]| if fl & 0x0800 != 0 { scalars(ref_lossy(b)) } else { cp(b) };
+                if field("raw") != hex(&cname) {
+                    fail("name_raw() is not the name bytes of the central header".into());
+                }
+                if field("name") != dec(cflags, &cname) {
+                    fail(format!("name not decoded from the central header's name by its flag alone (flags={cflags:#06x}): got `{}`", short(&field("name"))));
+                }
+                if field("comment") != dec(cflags, &comment) {
+                    fail(format!("comment not decoded by the central header's flag alone (flags={cflags:#06x}): got `{}`", short(&field("comment"))));
+                }
+                if lflags & 9 != 0 {
+                    if !resp.ends_with(" err unsupported") {
+                        fail(format!("streaming reader must refuse local flags {lflags:#06x}"));
+                    }
+                } else {
+                    if field("sraw") != hex(&lname) {
+                        fail("streamed name_raw() is not the name bytes of the local header".into());
+                    }
+                    if field("sname") != dec(lflags, &lname) {
+                        fail(format!("streamed name not decoded from the local header's name by its flag alone (flags={lflags:#06x}): got `{}`", short(&field("sname"))));
+                    }
                 }
             }
             "text.write" => {
